@@ -17,6 +17,7 @@ package term
 //@   assigns anyghost(tmode)
 //@   ensures [returns-previous-mode] result1 == nil ==> result0 != nil && fresh(result0) && result0.termios == old(tmode())
 //@   ensures [failure-changes-nothing] result1 != nil ==> tmode() == old(tmode())
+//@   bounded term/term_contract_test.go TestVerifBoundedTermContracts pseudo-random initial termios settings of a pseudo-terminal (flag words, VMIN, VTIME): MakeRaw returns exactly what TCGETS read before, and Restore leaves exactly the state given
 
 //@ func Restore
 //@   props C11
